@@ -1,0 +1,73 @@
+//! Read-only snapshot of the private indexes of `Graph`, compiled only with
+//! `--cfg graphrs_verif`. Used by the verification harness in /verif to compare
+//! every internal store with the formal model; not part of the public API.
+use super::Graph;
+use crate::{Edge, Node};
+use std::collections::{HashMap, HashSet};
+use std::sync::Arc;
+
+/// Clones of every private field of a `Graph`, in the containers' own iteration order.
+pub struct VerifSnapshot<T: PartialOrd + Send + Sync, A: Clone> {
+    pub nodes_map: Vec<(T, usize)>,
+    pub nodes_map_rev: Vec<(usize, Arc<Node<T, A>>)>,
+    pub nodes_vec: Vec<Arc<Node<T, A>>>,
+    pub edges: Vec<((T, T), Vec<Arc<Edge<T, A>>>)>,
+    pub edges_map: Vec<(usize, Vec<(usize, Vec<Arc<Edge<T, A>>>)>)>,
+    pub successors: HashMap<T, HashSet<T>>,
+    pub successors_map: Vec<(usize, Vec<usize>)>,
+    pub successors_vec: Vec<Vec<(usize, f64)>>,
+    pub predecessors: HashMap<T, HashSet<T>>,
+    pub predecessors_map: Vec<(usize, Vec<usize>)>,
+    pub predecessors_vec: Vec<Vec<(usize, f64)>>,
+}
+
+impl<T, A> Graph<T, A>
+where
+    T: Eq + Clone + PartialOrd + Ord + std::hash::Hash + Send + Sync + std::fmt::Display,
+    A: Clone,
+{
+    /// Returns a copy of all private indexes of the graph.
+    pub fn verif_snapshot(&self) -> VerifSnapshot<T, A> {
+        VerifSnapshot {
+            nodes_map: self.nodes_map.iter().map(|(k, v)| (k.clone(), *v)).collect(),
+            nodes_map_rev: self
+                .nodes_map_rev
+                .iter()
+                .map(|(k, v)| (*k, v.clone()))
+                .collect(),
+            nodes_vec: self.nodes_vec.clone(),
+            edges: self
+                .edges
+                .iter()
+                .map(|(k, v)| (k.clone(), v.clone()))
+                .collect(),
+            edges_map: self
+                .edges_map
+                .iter()
+                .map(|(u, hm)| (*u, hm.iter().map(|(v, es)| (*v, es.clone())).collect()))
+                .collect(),
+            successors: self.successors.clone(),
+            successors_map: self
+                .successors_map
+                .iter()
+                .map(|(k, v)| (*k, v.iter().cloned().collect()))
+                .collect(),
+            successors_vec: self
+                .successors_vec
+                .iter()
+                .map(|row| row.iter().map(|a| (a.node_index, a.weight)).collect())
+                .collect(),
+            predecessors: self.predecessors.clone(),
+            predecessors_map: self
+                .predecessors_map
+                .iter()
+                .map(|(k, v)| (*k, v.iter().cloned().collect()))
+                .collect(),
+            predecessors_vec: self
+                .predecessors_vec
+                .iter()
+                .map(|row| row.iter().map(|a| (a.node_index, a.weight)).collect())
+                .collect(),
+        }
+    }
+}
